@@ -141,7 +141,9 @@ def run(ctx):
                         flush = (cnd[0] == "notin") if cnd[0] == "notin" else (cnd[2] != 0)
                 ttl_terms.setdefault(flush, set()).add(repr(args[0]))
     report.count()
-    ok4 = set(ttl_terms.get(True, [])) == {"('const', 1)"} and len(ttl_terms.get(False, [])) == 1 and "'ttl'" in list(ttl_terms.get(False))[0]
+    # every ExpirationInfo::new call sits under a test of cache_flush (no path computes an expiry without consulting the bit)
+    ok4 = set(ttl_terms) == {True, False} and set(ttl_terms.get(True, [])) == {"('const', 1)"} and \
+        len(ttl_terms.get(False, [])) == 1 and "'ttl'" in list(ttl_terms.get(False))[0]
     if ok4:
         report.nontriv("ttl selection")
         report.sample({"fn": B["add_cached"].qname, "ttl": "1 if resource.cache_flush else resource.ttl"})
@@ -154,6 +156,17 @@ def run(ctx):
         viol(report, "C20-R4", B["add_cached"], "insert", "add_cached_resource does not insert (replace) the record in both the existing-node and new-node paths")
     else:
         report.nontriv("insert replaces")
+    # registering a record as authoritative replaces whatever is stored for it (a cached copy learned earlier must not
+    # survive the registration: authoritative records never expire and are what the responder answers with)
+    insa = mu.calls(B["add_auth"], r"HashMap::<K, V, S, A>::insert$")
+    soft = mu.calls(B["add_auth"], r"HashMap::<K, V, S, A>::(entry|try_insert|get_or_insert_with)$|Entry::<'a, K, V>::or_insert(_with)?$")
+    report.count()
+    if len(insa) < 2 or soft:
+        viol(report, "C20-R4", B["add_auth"], "insert-auth", "add_authoritative_resource does not insert (replace) the record in both the "
+             "existing-node and new-node paths (%d insert calls, non-replacing calls: %s): a record already cached stays Cached, "
+             "expires, and is never answered as authoritative" % (len(insa), [t["callee"]["name"] for _, t in soft]))
+    else:
+        report.nontriv("authoritative insert replaces")
     # ExpirationInfo::new: expire_at = now + from_secs(ttl)
     try:
         el = tables.table_of(prog, B["exp_new"])
